@@ -1,6 +1,7 @@
 (** Interleaving model of the in-memory filespace (filesystem/filespace/memfs) under concurrent
-    use, as the code is in /repo now (after "fix: memfs removal is atomic with its emptiness test
-    and creators retry on a removed directory", 8463491).  Definitions only; proofs are in
+    use, as the code is in /repo now (after 8463491 "memfs removal is atomic with its emptiness
+    test and creators retry on a removed directory" and 288e3e2 "memfs Writer locks a new file's data
+    before the file becomes visible").  Definitions only; proofs are in
     Proofs/MemConc.v.
 
     Shared state: a HEAP of directory objects and file objects with identity (index in the heap;
@@ -23,7 +24,8 @@
       WriteFile / Writer                    mkdirAllNodes; [memfs.create.gap]; Lock L + getNode (one
                                             step, enabled when L is free); then addNode | setData
                                             (enabled when the file's dataMU is free) | error, Unlock L
-      Writer handle                         dataMU.Lock + truncate (under L), one step per Write,
+      Writer handle                         dataMU.Lock + truncate (under L; for a NEW file before it
+                                            is inserted, same step), one step per Write,
                                             Close releases dataMU
       Reader handle                         open takes dataMU; Close releases it (the session's
                                             Read calls see the content unchanged: it holds the lock)
@@ -253,10 +255,19 @@ Fixpoint copy_ref (n : nat) (s : shared) (r : ref) : option (shared * ref) :=
   end.
 Definition copy_fuel (s : shared) : nat := S (S (length (dirs s))).
 
-(** ** One step of thread [t] at program counter [p] (not PIdle).  [ar] = atomic_remove. *)
+(** ** Code flavours.  [atomic_remove = false]: the code before 8463491 (F28).  [lock_first =
+    false]: the code before 288e3e2 — Writer on a NEW file inserted the empty file and took its
+    data lock in a later step; now the write handler (data lock taken) is created BEFORE
+    dir.addNode, so the file is never visible unlocked and empty. *)
+Record flavour := mkFl { atomic_remove : bool; lock_first : bool }.
+Definition cur : flavour := mkFl true true.
+Definition before_288e3e2 : flavour := mkFl true false.
+Definition before_8463491 : flavour := mkFl false false.
+
+(** ** One step of thread [t] at program counter [p] (not PIdle) in flavour [ar]. *)
 Definition release_L (s : shared) (d : nat) : shared := upd_dir s d (set_L None).
 
-Definition step_pc (ar : bool) (t : nat) (s : shared) (p : pcs) : option (shared * next) :=
+Definition step_pc (ar : flavour) (t : nat) (s : shared) (p : pcs) : option (shared * next) :=
   match p with
   | PIdle => None
   | PPanic => None
@@ -313,7 +324,7 @@ Definition step_pc (ar : bool) (t : nat) (s : shared) (p : pcs) : option (shared
         | None => Some (s, NPc PPanic)
         | Some co =>
           if negb all && negb (match d_ch co with [] => true | _ => false end) then Some (s, NRet QErr)
-          else if ar then
+          else if atomic_remove ar then
             Some (upd_dir (upd_dir s c set_removed) d (set_ch (unlink_ch (d_ch o) nm)), NRet QOk)
           else if all then Some (upd_dir s d (set_ch (unlink_ch (d_ch o) nm)), NRet QOk)
           else Some (s, NPc (PRemOld d nm))
@@ -384,11 +395,18 @@ Definition step_pc (ar : bool) (t : nat) (s : shared) (p : pcs) : option (shared
         else match lookup_ch (d_ch o) nm with
              | Some _ => Some (release_L s d, NRet QErr)
              | None =>
-               let (s1, f) := alloc_file s (mkFile (match w with WData data => data | WStream _ => [] end) None) in
-               let s2 := upd_dir s1 d (set_ch (d_ch o ++ [(nm, RFile f)])) in
                match w with
-               | WData _ => Some (release_L s2 d, NRet QOk)
-               | WStream chunks => Some (s2, NPc (PWriterAcq d f chunks))
+               | WData data =>
+                 let (s1, f) := alloc_file s (mkFile data None) in
+                 Some (release_L (upd_dir s1 d (set_ch (d_ch o ++ [(nm, RFile f)]))) d, NRet QOk)
+               | WStream chunks =>
+                 if lock_first ar then
+                   (* newFileWriteHandler(file) before dir.addNode(file): inserted already locked *)
+                   let (s1, f) := alloc_file s (mkFile [] (Some t)) in
+                   Some (release_L (upd_dir s1 d (set_ch (d_ch o ++ [(nm, RFile f)]))) d, NPc (PWriting f chunks))
+                 else
+                   let (s1, f) := alloc_file s (mkFile [] None) in
+                   Some (upd_dir s1 d (set_ch (d_ch o ++ [(nm, RFile f)])), NPc (PWriterAcq d f chunks))
                end
              end
       end
@@ -436,7 +454,7 @@ Definition finish (l : local) (r : cres) : local :=
 Definition apply_next (l : local) (n : next) : local :=
   match n with NPc p => mkLocal (prog l) p (log l) | NRet r => finish l r end.
 
-Definition step_local (ar : bool) (t : nat) (s : shared) (l : local) : option (shared * local) :=
+Definition step_local (ar : flavour) (t : nat) (s : shared) (l : local) : option (shared * local) :=
   match pc l with
   | PIdle => match prog l with
              | [] => None
@@ -448,7 +466,7 @@ Definition step_local (ar : bool) (t : nat) (s : shared) (l : local) : option (s
          end
   end.
 
-Definition step (ar : bool) (t : nat) (st : state) : option state :=
+Definition step (ar : flavour) (t : nat) (st : state) : option state :=
   match nth_error (ths st) t with
   | None => None
   | Some l =>
@@ -458,9 +476,9 @@ Definition step (ar : bool) (t : nat) (st : state) : option state :=
     end
   end.
 
-Definition step_or_stay (ar : bool) (st : state) (t : nat) : state :=
+Definition step_or_stay (ar : flavour) (st : state) (t : nat) : state :=
   match step ar t st with Some st' => st' | None => st end.
-Definition run (ar : bool) (sched : list nat) (st : state) : state :=
+Definition run (ar : flavour) (sched : list nat) (st : state) : state :=
   fold_left (step_or_stay ar) sched st.
 
 Definition is_idle (p : pcs) : bool := match p with PIdle => true | _ => false end.
@@ -526,14 +544,16 @@ Fixpoint walk (s : shared) (cur : ref) (p : path) : option ref :=
 Definition walk_root (s : shared) (p : path) : option ref := walk s (RDir ROOT) p.
 
 (** ** Values *)
-Definition op_vals (o : cop) : list bytes :=
+(** In the flavours before 288e3e2 the empty value belongs to every Writer session (creation
+    window); in the current flavour it does not. *)
+Definition op_vals (fl : flavour) (o : cop) : list bytes :=
   match o with
   | CWrite _ data => [data]
-  | CWriter _ chunks => [concat chunks; []]
+  | CWriter _ chunks => if lock_first fl then [concat chunks] else [concat chunks; []]
   | _ => []
   end.
-Definition vals_of (st : state) : list bytes :=
-  map f_data (files (sh st)) ++ flat_map (fun l => flat_map op_vals (prog l)) (ths st).
+Definition vals_of (fl : flavour) (st : state) : list bytes :=
+  map f_data (files (sh st)) ++ flat_map (fun l => flat_map (op_vals fl) (prog l)) (ths st).
 
 Definition is_remove (o : cop) : bool := match o with CRemove _ _ => true | _ => false end.
 Definition is_mkdir_or_query (o : cop) : bool :=
@@ -545,7 +565,7 @@ Definition results_of (st : state) (t : nat) : list (cop * cres) :=
 (** ** Exhaustive exploration of ALL schedules of a (small) configuration: [explore n P st] is
     true iff every maximal interleaving from [st] reaches, within [n] steps, a state in which no
     thread has an enabled step, and that state satisfies [P].  (Proofs/MemConc.v: explore_sound.) *)
-Fixpoint explore (ar : bool) (n : nat) (P : state -> bool) (st : state) : bool :=
+Fixpoint explore (ar : flavour) (n : nat) (P : state -> bool) (st : state) : bool :=
   if forallb (fun t => match step ar t st with None => true | Some _ => false end) (seq 0 (length (ths st)))
   then P st
   else match n with
@@ -612,13 +632,13 @@ Definition all_ok (st : state) : bool :=
   forallb (fun l => forallb (fun e => res_ok (snd e)) (log l)) (ths st) && final st.
 
 (** Set-up of a scenario: run one thread alone to the end on the empty filespace. *)
-Fixpoint run_alone (ar : bool) (n : nat) (st : state) : state :=
+Fixpoint run_alone (ar : flavour) (n : nat) (st : state) : state :=
   match n with
   | O => st
   | S n' => match step ar 0 st with Some st' => run_alone ar n' st' | None => st end
   end.
 Definition setup (ops : list cop) : shared :=
-  sh (run_alone true (40 * S (length ops)) (boot empty_shared [ops])).
+  sh (run_alone cur (40 * S (length ops)) (boot empty_shared [ops])).
 
 Definition nm (c : N) : name := [c].
 Definition nD := nm 100. Definition nE := nm 101. Definition nX := nm 120. Definition nY := nm 121.
